@@ -26,13 +26,17 @@ CALL_LIMIT_S = 10
 
 
 # ------------------------------------------------------------------ callbacks
-def make_callbacks(events, tabstop):
+def make_callbacks(events, tabstop, rewrite=False):
+    """rewrite: output.text returns something else than it is given (length changes, no line break added);
+    the recorded string is the RETURNED one (implementation-only oracle runs; the model fixes the identity)."""
     def field(index, placeholder, offset=None, line=None, column=None, **kw):
         ret = su.tabstop_field(index, placeholder) if tabstop else placeholder
         events.append(('field', index, placeholder, ret, offset, line, column))
         return ret
 
     def text(t, offset=None, line=None, column=None, **kw):
+        if rewrite:
+            t = t.replace('e', 'EE').replace(':', '').replace('&', '&amp;')
         events.append(('text', t, offset, line, column))
         return t
     return field, text
@@ -69,14 +73,14 @@ def user_config(syntax, options, snippets=None, context=None):
     return c
 
 
-def impl_run(abbr, ucfg, tabstop=False, cache=None):
+def impl_run(abbr, ucfg, tabstop=False, cache=None, rewrite=False):
     """('ok', final, events, props, resolved options) | ('err', class...) | ('hang', s) | ('domain', why).
     `props` is a snapshot of the resolved CSSProperty list that stringify received.  `cache`: a dict handed to the
     Config as its documented `cache` key (the snippet table is then converted once, not on every call)."""
     from emmet.config import Config
     from emmet import stylesheet
     events = []
-    field, text = make_callbacks(events, tabstop)
+    field, text = make_callbacks(events, tabstop, rewrite)
     uc = copy.deepcopy(ucfg)
     uc.setdefault('options', {})
     uc['options']['output.field'] = field
